@@ -19,7 +19,8 @@
    correspondence check) uses.  The octal case needs an argument: "%#.NO" has room only because
    the zero padding supplies the leading 0 that '#' would otherwise add.
    NOT a theorem: the exact shape of the PANIC= report (correspondence + black-box predicates);
-   the scratch arrays of fmtUnicode / fmtC / fmtQc / fmtFloat (list-level in the model). *)
+   fmtUnicode has the same theorem (C11_unicode_scratch_array_never_out_of_range); fmtC, fmtQc
+   and fmtFloat only append to their scratch slices (no index arithmetic). *)
 From Redact Require Import Bytes Tokens Utf8 Buffer Ops BufInv LBuf Printer Api.
 From Redact Require Import Utf8P BufInvP BufferThm Hoare Keeps BufMem BufMemP Fmt FmtNI FmtMem FmtMemP.
 From Coq Require Import ZArith.
@@ -57,6 +58,14 @@ Theorem C11_integer_scratch_array_never_out_of_range : forall f u0 base sg verb 
 Proof. exact fmt_integer_mem_ok. Qed.
 Print Assumptions C11_integer_scratch_array_never_out_of_range.
 
+(* fmtUnicode (the other place of format.go that fills a scratch array right to left, here with the
+   quoted character of %#U copied as a block): same statement.  The outer option is the index
+   check, the inner one the IsPrint oracle of the list-level model. *)
+Theorem C11_unicode_scratch_array_never_out_of_range : forall o f u,
+  (0 <= u < two64)%Z -> (0 <= prec f)%Z -> fmt_unicode_mem o f u = Some (fmt_unicode o f u).
+Proof. exact fmt_unicode_mem_ok. Qed.
+Print Assumptions C11_unicode_scratch_array_never_out_of_range.
+
 (* Non-vacuity: "%#+b" of MaxUint64 fills 67 of the 68 bytes; "%+#070.0b"-like settings enlarge the
    array; and the error value is real: were 'O' ever paired with base 2 (it is not: fmtInteger
    passes 8), "0b" + "0o" + sign + 64 digits would not fit and the model reports the overrun. *)
@@ -67,8 +76,12 @@ Example C11_scratch_nonvacuous :
   fmt_integer_mem f (two64 - 1) 2 false 98 false = Some (fmt_integer f (two64 - 1) 2 false 98 false) /\
   fmt_integer_mem f (two64 - 1) 2 false 79 false = None /\
   (let g := mkF (mkFlags true true false true true false true false false) 80 75 in
-   scratch_len g = 158%Z /\ fmt_integer_mem g 5 8 true 79 false = Some (fmt_integer g 5 8 true 79 false)).
-Proof. vm_compute. repeat split; reflexivity. Qed.
+   scratch_len g = 158%Z /\ fmt_integer_mem g 5 8 true 79 false = Some (fmt_integer g 5 8 true 79 false)) /\
+  (* "%#.60U" of U+1F600 with IsPrint = true: 2 + 60 + 2 + 4 + 1 = 69 bytes, all used *)
+  (let h := mkF (mkFlags false true false false true false false false false) 0 60 in
+   let o := [(KIsPrint 128512, [49%N])] in
+   uscratch_len h = 69%Z /\ fmt_unicode_mem o h 128512 = Some (fmt_unicode o h 128512) /\ fmt_unicode o h 128512 <> None).
+Proof. vm_compute. repeat split; try reflexivity. discriminate. Qed.
 
 (* Non-vacuity: an invalid rune in an open envelope; a Stringer whose String panics while the
    operand is printed: the text before and after is intact and the payload is enveloped. *)
